@@ -74,6 +74,24 @@ JudgeStream(e) ==
   ELSE IF ~Increasing(e.seq) THEN "PairFifo"
   ELSE ""
 
+\* ---- remote event subscribers (C18 "from another node") -------------------------------
+\* e.sums: everything published, in order ("<seq>:<checksum>"); the first e.c.pre before the subscriptions
+IsPrefix(a, b) == Len(a) <= Len(b) /\ \A i \in 1..Len(a) : a[i] = b[i]
+JudgeEvent(e) ==
+  LET pre == IF e.c.pre <= Len(e.sums) THEN e.c.pre ELSE Len(e.sums)
+      nb == IF e.c.buffer < pre THEN e.c.buffer ELSE pre
+      wantbuf == SubSeq(e.sums, pre - nb + 1, pre)
+      wantlive == SubSeq(e.sums, pre + 1, Len(e.sums))
+      S == 1..Len(e.subres)
+  IN
+  IF \E i \in S : e.subres[i] # "ok" THEN "EventSubscribe"
+  ELSE IF \E i \in S : e.buf[i] # wantbuf THEN "EventBuffer"
+  ELSE IF \E i \in S : ~IsPrefix(e.live[i], wantlive) THEN "EventOnce"
+  ELSE IF e.c.end = "" /\ \E i \in S : e.live[i] # wantlive THEN "EventOnce"
+  ELSE IF e.c.end # "" /\ \E i \in S : Len(e.notes[i]) # 1 THEN "EventNotice"
+  ELSE IF e.c.end # "" /\ \E i \in S : e.live[i] # wantlive THEN "EventLostAtEnd"
+  ELSE ""
+
 Init == /\ l = 1 /\ maxsize = 0 /\ sends = <<>> /\ mismatch = "" /\ skipping = FALSE
         /\ TLCSet(1, 1) /\ TLCSet(2, <<>>)
 
@@ -83,12 +101,13 @@ Line ==
   ELSE IF e.ev = "send" THEN sends' = Append(sends, e) /\ UNCHANGED maxsize /\ mismatch' = ""
   ELSE IF e.ev = "recv" THEN UNCHANGED <<maxsize, sends>> /\ mismatch' = (IF Checks = {} THEN "" ELSE JudgeRecv(e))
   ELSE IF e.ev = "stream" THEN UNCHANGED <<maxsize, sends>> /\ mismatch' = (IF Checks = {} THEN "" ELSE JudgeStream(e))
+  ELSE IF e.ev = "revent" THEN UNCHANGED <<maxsize, sends>> /\ mismatch' = (IF Checks = {} THEN "" ELSE JudgeEvent(e))
   ELSE UNCHANGED <<maxsize, sends>> /\ mismatch' = ""
 
 Next ==
   IF mismatch # ""
     THEN /\ TLCSet(2, Append(TLCGet(2), <<mismatch, l - 1>>))
-         /\ skipping' = (TraceLog[l - 1].ev # "stream") /\ mismatch' = "" /\ UNCHANGED <<maxsize, sends, l>>
+         /\ skipping' = (TraceLog[l - 1].ev \notin {"stream", "revent"}) /\ mismatch' = "" /\ UNCHANGED <<maxsize, sends, l>>
     ELSE /\ l <= Len(TraceLog)
          /\ IF skipping /\ TraceLog[l].ev # "cfg"
               THEN l' = l + 1 /\ UNCHANGED <<maxsize, sends, mismatch, skipping>>
